@@ -13,7 +13,7 @@ RULE = ("histories of predictions (dt in (0, max_dt]) and sensor updates from a 
         "(identity, diagonal with zeros, rank-one v v^T, random SPD) on: the project's own mass/z/v/a model "
         "(singular process Jacobian), duplicated/constant-state models, contractive random programs; filtering "
         "on and off.  Every matrix handed to assert_valid_covariance and every covariance returned by "
-        "process_model / sensor_model is classified relative to s = max(1, ||P||_2): valid (asym <= 1e-13 s and "
+        "process_model / sensor_model is classified relative to s = ||P||_2: valid (asym <= 1e-13 s and "
         "lambda_min >= -1e-13 s), invalid (> 1e-8 s), grey otherwise.  Violation: the library refuses a valid "
         "matrix, or returns an invalid one.  non-trivial = history of >= 20 steps containing both predictions "
         "and updates; distinct = sha256(definition, initial covariance kind, history seed)")
@@ -62,7 +62,11 @@ def classify(P):
         return "invalid", np.inf, -np.inf
     Ps = (P + P.T) / 2
     w = np.linalg.eigvalsh(Ps)
-    s = max(1.0, float(np.max(np.abs(w))))
+    # "up to rounding relative to their magnitude": the scale is the matrix's own norm (no floor at 1, so
+    # that small-magnitude filters are judged by the same relative standard)
+    s = float(np.max(np.abs(w)))
+    if s == 0.0:
+        return ("valid", 0.0, 0.0) if float(np.max(np.abs(P - P.T))) == 0.0 else ("invalid", np.inf, 0.0)
     asym = float(np.max(np.abs(P - P.T))) / s
     lam = float(w[0]) / s
     if asym <= 1e-13 and lam >= -1e-13:
@@ -83,7 +87,7 @@ def gen_defn(rng, i):
         # O(1) matter here
         d = gen.contractive_program(rng, n_state=(1, 3), n_control=(1, 2), n_calib=(0, 1), n_sensor=(1, 2),
                                     n_reading=(1, 2), depth=1, n_shared=(0, 1), allow_text=False)
-        sc = rng.choice([1e-8, 1e-9, 1e-7])
+        sc = rng.choice([1e-9, 1e-10, 1e-11, 1e-8])
         d["process_noise"] = {k: v * sc * 50 for k, v in d["process_noise"].items()}
         d["sensor_noises"] = {s_: {r: v * sc for r, v in rd.items()} for s_, rd in d["sensor_noises"].items()}
         d["family"] = "tiny_magnitude"
